@@ -34,6 +34,7 @@ def jobs(tier, seed):
     out.append({"id": "snes_to_rom/direct", "kind": "s2r"})
     out.append({"id": "long_low_rom_pointer", "kind": "llrp"})
     out.append({"id": "base_relative_16bits", "kind": "br16"})
+    out.append({"id": "pointer-converters-are-independent", "kind": "llrp2"})
     return out
 
 
@@ -65,6 +66,18 @@ def run(spec, cx):
         p = cx.int("p", 0, 0x3FFFFF)
         cx.assume(cx.t("base") + cx.t("p") <= 0x3FFFFF)
         return ("llrp", long_low_rom_pointer(base)(p))
+    if kind == "llrp2":
+        # two converters with different bases alive in one process, used alternately on the same
+        # and on different pointers: each result depends only on its own base and pointer
+        from script.formulas import base_relative_16bits_pointer_formula, long_low_rom_pointer
+
+        b1, b2 = cx.int("b1", 0, 0x1FFFFF), cx.int("b2", 0, 0x1FFFFF)
+        p, q = cx.int("p", 0, 0xFFFF), cx.int("q", 0, 0xFFFF)
+        cx.assume(cx.t("b1") != cx.t("b2"))
+        f1, f2 = long_low_rom_pointer(b1), long_low_rom_pointer(b2)
+        g1, g2 = base_relative_16bits_pointer_formula(b1), base_relative_16bits_pointer_formula(b2)
+        v = bytes([0x34, 0x12])
+        return ("llrp2", f1(p), f2(p), f1(q), f2(q), f1(p), g1(v), g2(v), g1(v))
     if kind == "br16":
         from script.formulas import base_relative_16bits_pointer_formula
 
@@ -129,6 +142,13 @@ def check(spec, cx, out):
     if kind == "llrp":
         tgt = cx.t("base") + cx.t("p")
         res.append(("pointer-bytes", eq_bytes(out[1], le_bytes(textbook(tgt, "low_rom"), 3))))
+        return res
+    if kind == "llrp2":
+        b1, b2, p, q = cx.t("b1"), cx.t("b2"), cx.t("p"), cx.t("q")
+        want = [(b1, p), (b2, p), (b1, q), (b2, q), (b1, p)]
+        conds = [eq_bytes(out[1 + i], le_bytes(textbook(b + x, "low_rom"), 3)) for i, (b, x) in enumerate(want)]
+        conds += [bv(out[6]) == b1 + 0x1234, bv(out[7]) == b2 + 0x1234, bv(out[8]) == b1 + 0x1234]
+        res.append(("each-converter-depends-only-on-its-own-base", z3.And(*conds)))
         return res
     if kind == "br16":
         res.append(("decode-le16-plus-base", bv(out[1]) == cx.t("v0") + (cx.t("v1") << 8) + cx.t("base")))
